@@ -24,8 +24,9 @@ import sys
 import tempfile
 
 ROOT = os.path.dirname(os.path.abspath(__file__))
-REPO = "/repo"
 OUT = os.path.join(ROOT, "mutation")
+BASE = "/tmp/pvc_mutation_base"  # snapshot of the committed tree the mutants were generated from (re-created by `gen`)
+REPO = BASE
 CMP = {"==": "!=", "!=": "==", "<": "<=", "<=": "<", ">": ">=", ">=": ">", "is": "is not", "is not": "is", "in": "not in", "not in": "in"}
 
 
@@ -37,6 +38,9 @@ def offsets(src):
 
 
 def generate():
+    shutil.rmtree(BASE, ignore_errors=True)
+    os.makedirs(BASE)
+    subprocess.run(f"git -C /repo archive HEAD ptera tests | tar -x -C {BASE}", shell=True, check=True)
     mutants = []
     for path in sorted(glob.glob(os.path.join(REPO, "ptera", "*.py"))):
         src = open(path).read()
@@ -129,8 +133,9 @@ def generate():
 
 def make_copy(m, with_tests):
     tmp = tempfile.mkdtemp(prefix="pvc_mut_")
-    subprocess.run(f"git -C {REPO} archive HEAD ptera {'tests' if with_tests else ''} | tar -x -C {tmp}", shell=True, check=True)
+    shutil.copytree(os.path.join(BASE, "ptera"), os.path.join(tmp, "ptera"))
     if with_tests:
+        shutil.copytree(os.path.join(BASE, "tests"), os.path.join(tmp, "tests"))
         for f in ("pyproject.toml", "setup.cfg", "conftest.py", "README.md"):
             if os.path.exists(os.path.join(REPO, f)):
                 shutil.copy(os.path.join(REPO, f), tmp)
